@@ -38,8 +38,10 @@ CONFIGS = {
     "S20r": ["-std=c++20", "-DNDEBUG"],
     "S17d": ["-std=c++17"],
     "S20dv": ["-std=c++20", "-DUNIFEX_ENABLE_CONTINUATION_VISITATIONS=1"],
-    "S17rv": ["-std=c++17", "-DNDEBUG", "-DUNIFEX_ENABLE_CONTINUATION_VISITATIONS=1"],
-    "S20rv": ["-std=c++20", "-DNDEBUG", "-DUNIFEX_ENABLE_CONTINUATION_VISITATIONS=1"],
+    # (with_query_value.hpp uses visit_continuations without including async_trace.hpp; in debug builds the
+    #  async-stack headers pull it in, in NDEBUG+CV builds the user has to: force-include it here)
+    "S17rv": ["-std=c++17", "-DNDEBUG", "-DUNIFEX_ENABLE_CONTINUATION_VISITATIONS=1", "-include", "unifex/async_trace.hpp"],
+    "S20rv": ["-std=c++20", "-DNDEBUG", "-DUNIFEX_ENABLE_CONTINUATION_VISITATIONS=1", "-include", "unifex/async_trace.hpp"],
     "S17dv": ["-std=c++17", "-DUNIFEX_ENABLE_CONTINUATION_VISITATIONS=1"],
 }
 SIM_FLAGS = ["-O1", "-g1", "-fno-omit-frame-pointer", "-fsanitize=thread", "--param",
